@@ -13,6 +13,15 @@ open HapVerif.Drv
 
   bits4 = crt ca passwd services.  dyn tokens: a allow, d deny, - absent, A "Allow", U "ALLOW",
   x "yes", t "true", e "", s " allow", w "allowed".
+    C09 oauth <src> <impl> <pfx> <decls> <static+bits4> <fu> => t=<own:<svc>|foreign:<svc>|none>;d=<0|1>;u=<0|1>;b=<bits4> | PANIC
+
+  oauth: Ingress a/app (host h0, path / -> Service a/svc) carries the oauth site; src = ing | svc (object
+  with the annotations); impl: p `oauth2_proxy`, h `oauth2-proxy`, x an unknown implementation, u
+  `oauth2_proxy` + an `auth-url` of its own namespace, n no oauth; pfx: - or h<hex> = oauth-uri-prefix;
+  decls: - or a `+` separated list `<ns>:<host>:h<hex path>:<svc>`, one more Ingress each (namespace a | b,
+  converted in the order a/app, a's in list order, b's in list order: first declaration of a host+path
+  wins), Services of namespace b exist in the world WITH the foreign objects only; t/d: namespace class
+  of the auth backend and AlwaysDeny of a/app's path; u: namespace a's slice differs between the worlds.
   site: tls tlstcp gwcert authtls authtlstcp securecrt secureca authsecret authurl authurlfe;
   src: ing | svc (object carrying the annotation, namespace a);
   form: n own other file fileb secother secown (fileb = file:// naming the controller's copy of b's secret);
@@ -155,8 +164,94 @@ def targetOf (form fu : String) (r : Res) : String :=
     if form = "fileb" then (if fu = "1" then "foreign" else "none") else "file"
   | _ => "none"
 
+/-! ### the oauth site: the host/path table the real converter builds from the declarations -/
+
+structure ODecl where
+  ns : Str
+  host : Str
+  path : Str
+  svc : Str
+deriving Repr
+
+def parseDecl (s : String) : Option ODecl :=
+  match s.splitOn ":" with
+  | [ns, host, path, svc] =>
+    if ns = "a" ∨ ns = "b" then (unhex path).map fun p => ⟨ns.toList, host.toList, p, svc.toList⟩ else none
+  | _ => none
+
+/-- Go string `<` on ASCII values -/
+def strLt : Str → Str → Bool
+  | [], [] => false
+  | [], _ :: _ => true
+  | _ :: _, [] => false
+  | a :: as, b :: bs => if a < b then true else if b < a then false else strLt as bs
+
+/-- `Host.addLink`: append, then sort by path descending (equal paths: insertion order) -/
+def insertPath (ps : List HPath) (p : HPath) : List HPath :=
+  match ps with
+  | [] => [p]
+  | q :: qs => if strLt q.path p.path then p :: q :: qs else q :: insertPath qs p
+
+/-- `syncIngressHTTP` for one rule with one path: `addHost`; a host+path that is already there is
+skipped ("redeclared path"), so is a path whose Service does not exist -/
+def addDecl (t : List HHost) (d : ODecl) (svcExists : Bool) : List HHost :=
+  let upd (h : HHost) : HHost :=
+    if h.paths.any (·.path == d.path) || !svcExists then h
+    else { h with paths := insertPath h.paths ⟨d.path, d.ns, d.svc⟩ }
+  if t.any (·.hostname == d.host) then t.map (fun h => if h.hostname == d.host then upd h else h)
+  else t ++ [upd ⟨d.host, []⟩]
+
+def oauthTable (decls : List ODecl) (withForeign : Bool) : List HHost :=
+  let prot : ODecl := ⟨nsA, "h0".toList, ['/'], "svc".toList⟩
+  let ordered := prot :: (decls.filter (·.ns == nsA)) ++ decls.filter (·.ns != nsA)
+  ordered.foldl (fun t d => addDecl t d (d.ns == nsA || withForeign)) []
+
+def oauthCfgOf (impl : String) (pfx : Option Str) : Option OAuthCfg :=
+  match impl with
+  | "p" => some { oauth := some sOAuth2Proxy, uriPrefix := pfx }
+  | "h" => some { oauth := some sOAuth2ProxyDash, uriPrefix := pfx }
+  | "x" => some { oauth := some "other".toList, uriPrefix := pfx }
+  | "u" => some { oauth := some sOAuth2Proxy, authURL := true, uriPrefix := pfx }
+  | "n" => some { oauth := none, uriPrefix := pfx }
+  | _ => none
+
+/-- `kept`: what the path's own `auth-url: svc://authsvc:8080/auth` (harness) left — the auth-url
+site of the model: its backend exists only when ingress.go pre-built it (annotation on the Ingress) -/
+def showOAuth (bits : Bits) (fromIng : Bool) : OAuthOut → String
+  | .untouched => "t=none;d=0"
+  | .kept =>
+    match siteUses .authURL bits Existing.none fromIng nsA "authsvc".toList with
+    | .obj _ n => "t=own:" ++ String.ofList n ++ ";d=0"
+    | _ => "t=none;d=1"
+  | .deny => "t=none;d=1"
+  | .proxy p _ => "t=" ++ (if p.ns = nsA then "own:" else "foreign:") ++ String.ofList p.name ++ ";d=0"
+
 def handle (args : List String) (impl : String) : Verdict :=
   match args with
+  | ["oauth", src, im, pfx, decls, set, _fu] =>
+    let pfx? : Option (Option Str) := if pfx = "-" then some none else (unhex pfx).map some
+    match pfx?, parseList parseDecl decls "+", set.toList with
+    | some pfx, some ds, [s, c1, c2, c3, c4] =>
+      match oauthCfgOf im pfx with
+      | none => bad "oauth-impl"
+      | some cfg =>
+        if src != "ing" && src != "svc" then bad "oauth-src" else
+        let tok (c : Char) : Str := if c == '1' then sAllow else "deny".toList
+        let cm : GlobalCM := { crt := tok c1, ca := tok c2, pw := tok c3, svc := tok c4 }
+        let cur := buildGlobalDynamic (s == '1') cm
+        -- the three histories (first reconciliation / namespace b converted first, a added by a
+        -- partial sync / every key allowed, then the ConfigMap changed) end in the same table
+        let o1 := buildOAuth (oauthTable ds true) nsA cfg
+        let o0 := buildOAuth (oauthTable ds false) nsA cfg
+        let m := showOAuth cur (src == "ing") o1 ++ ";u=" ++ bit (decide (o1 ≠ o0)) ++ ";b=" ++ showBits cur
+        let fields := impl.splitOn ";"
+        let has (x : String) := fields.contains x
+        { model := m, agree := m = impl,
+          -- no key opens this site: `allowed` is false under every setting
+          oracle := oracle "oauth" .svc false false
+            (has "u=1" || fields.any (fun f => f.startsWith "t=foreign")) (impl == "PANIC"),
+          trivial := !(ds.any (·.ns == nsB)) || cfg.oauth.isNone }
+    | _, _, _ => bad "oauth-parse"
   | ["brn", dns, value, allow] =>
     match unhex dns, unhex value with
     | some dns, some value =>
